@@ -266,7 +266,7 @@ def rule_r3(ctx) -> List[R.Inst]:
     over = M.fn(M.method(HL, "between"))
     file, line = fn_loc(M, over.qual)
     def normalises(fn):
-        return any(isinstance(n, ast.If) and "isinstance(include_ends, bool)" in unparse(n.test) for n in ast.walk(fn.node))
+        return any(isinstance(n, (ast.If, ast.IfExp)) and "isinstance(include_ends, bool)" in unparse(n.test) for n in ast.walk(fn.node))
     if over.qual == base.qual:
         insts.append(R.ok("C16.R3", "HoldList.between.normalisation", file, line, idiom="inherits the base method"))
     elif normalises(base) and not normalises(over):
@@ -468,8 +468,25 @@ SPEC6 = {
 
 def _between_plumbing(fn: ast.FunctionDef) -> Optional[Dict[str, Dict[str, str]]]:
     """self.after(a, x, ...).before(b, y, ...) -> {'after': {...args}, 'before': {...}} as source text."""
+    from .common import inline_locals
+    # a pair normalised under another name (`ends = (x, x) if isinstance(x, bool) else x`) is the parameter it normalises
+    alias = {}
+    for n in ast.walk(fn):
+        if isinstance(n, ast.Assign) and len(n.targets) == 1 and isinstance(n.targets[0], ast.Name) and isinstance(n.value, ast.IfExp) and \
+                "isinstance(" in unparse(n.value.test) and isinstance(n.value.orelse, ast.Name) and isinstance(n.value.body, ast.Tuple) and \
+                all(unparse(e_) == n.value.orelse.id for e_ in n.value.body.elts):
+            alias[n.targets[0].id] = n.value.orelse.id
     for r in returns_of(fn):
         v = r.value
+        if isinstance(v, ast.Call) and isinstance(v.func, ast.Attribute) and isinstance(v.func.value, ast.Name):
+            v = inline_locals(fn, v, kinds=(ast.Call,))          # from_lower = self.after(..); return from_lower.before(..)
+        if alias:
+            import copy as _copy
+
+            class _A(ast.NodeTransformer):
+                def visit_Name(self, n_):
+                    return ast.copy_location(ast.Name(id=alias[n_.id], ctx=n_.ctx), n_) if n_.id in alias and isinstance(n_.ctx, ast.Load) else n_
+            v = _A().visit(_copy.deepcopy(v))
         if isinstance(v, ast.Call) and isinstance(v.func, ast.Attribute) and isinstance(v.func.value, ast.Call) \
                 and isinstance(v.func.value.func, ast.Attribute) and unparse(v.func.value.func.value) == "self":
             outer, inner = v, v.func.value
